@@ -230,13 +230,17 @@ def t_baseline(E):
     bl = E.call(P + ":baseline", inner)
     b, db, a, da = E.real("b"), E.real("db"), E.real("theta"), E.real("dtheta")
     out = E.method(bl, "jvp_estimate", k, (dual(E, b, db), dual(E, a, da)), (K.kpure, K.kdual))
-    split = E.ctx.fn("split", U, z3.IntSort(), z3.IntSort(), U)
-    k0, k1 = split(k.t, 2, 0), split(k.t, 2, 1)
+    op, ot = parts(E, out)
+    # the continuation's key and the sampling key are read off the result (as in adev.reinforce)
+    op_t = z3.simplify(op.t)
+    E.require("C29.Baseline.jvp_estimate.returns_the_continuation_s_value_at_a_drawn_sample",
+              z3.is_app(op_t) and op_t.decl().name() == "kont_value" and z3.is_app(z3.simplify(op_t.arg(1)))
+              and z3.simplify(op_t.arg(1)).decl().name() == "sampler")
+    k0, k1 = op_t.arg(0), z3.simplify(op_t.arg(1)).arg(0)
     v = UVal(samp_f(k1, E.I.to_u((a,))), "array")
     zl = UVal(E.ctx.fn("zeros_like", U, U)(v.t), "array")
     kv, dkv = K.val(k0, v), K.tan(k0, v, zl)
     dlogp = E.ctx.fn("jvp_tangent", U, U, U, z3.RealSort())(logpdf.t, E.I.to_u((v, a)), E.I.to_u((zl, da)))
-    op, ot = parts(E, out)
     E.prove("C29.Baseline.primal_unchanged_by_the_baseline", E.eq(op, SReal(kv)))
     E.prove("C29.Baseline.tangent_is_score_function_estimator_with_baseline",
             E.eq(ot, SReal(dkv + (kv - b.t) * dlogp)))
